@@ -45,6 +45,12 @@ public:
       : _m(m), _args(args), _res(res), _part(partName), _maxStates(0), _maxViolationsPerKey(3), _timeFrac(1.0) {}
 
    void SetMaxStates(uint64_t n) { _maxStates = n; }
+   void SetCpuLimit(double s) { _cpuLimitS = s; }   // per transition (history replay + one op); default 10 s
+   static void ArmWatchdog(double s)
+   {
+      struct itimerval it; memset(&it, 0, sizeof(it)); it.it_value.tv_sec = (long)s; it.it_value.tv_usec = (long)((s - (double)(long)s) * 1e6);
+      signal(SIGVTALRM, SIG_DFL); setitimer(ITIMER_VIRTUAL, &it, NULL);
+   }
    void SetDeadline(double absTime) { _absDeadline = absTime; _haveDeadline = true; }
 
    // rebuild the history of node i (list of ops, start index returned)
@@ -110,6 +116,7 @@ public:
                ops.back() = op;
                std::string msg, key;
                int st;
+               ArmWatchdog(_cpuLimitS);   // CPU-time limit per transition: an operation that never returns kills this worker and is attributed below
                verif::Hash128 h = {0, 0}, oh = {0, 0};
                {
                   typename M::World w;
@@ -138,10 +145,10 @@ public:
                for (int op = 0; op < nops; op++) {
                   ops.back() = op; fflush(stdout);
                   pid_t pid = fork();
-                  if (pid == 0) { int dn = open("/dev/null", O_WRONLY); if (dn >= 0) { dup2(dn, 2); } typename M::World w; std::string m, k; Replay(w, start, ops, m, k); _exit(0); }
+                  if (pid == 0) { int dn = open("/dev/null", O_WRONLY); if (dn >= 0) { dup2(dn, 2); } ArmWatchdog(_cpuLimitS * 4); typename M::World w; std::string m, k; Replay(w, start, ops, m, k); _exit(0); }
                   int st = 0; waitpid(pid, &st, 0);
                   if (!(WIFEXITED(st) && WEXITSTATUS(st) == 0)) {
-                     std::string what = WIFSIGNALED(st) ? verif::Fmt("killed by signal %d", WTERMSIG(st)) : verif::Fmt("exit code %d", WEXITSTATUS(st));
+                     std::string what = WIFSIGNALED(st) ? verif::Fmt("killed by signal %d%s", WTERMSIG(st), WTERMSIG(st) == SIGVTALRM ? " (CPU-time watchdog: the operation does not return)" : "") : verif::Fmt("exit code %d", WEXITSTATUS(st));
                      std::string key = "fatal:" + std::string(WIFSIGNALED(st) ? verif::Fmt("sig%d", WTERMSIG(st)) : verif::Fmt("exit%d", WEXITSTATUS(st))) + ":" + _m.OpName(op);
                      if (violPerKey[key]++ < _maxViolationsPerKey) {
                         std::string body = HistoryJson(start, ops) + ", \"observed\": " + verif::JStr("process " + what + " (87=ASan, 88=UBSan, 6=abort, 11=SEGV)") + "}";
@@ -220,7 +227,7 @@ public:
 private:
    const M & _m; const verif::Args & _args; verif::Result & _res; std::string _part;
    std::vector<Node> _nodes;
-   uint64_t _maxStates; int _maxViolationsPerKey; double _timeFrac;
+   uint64_t _maxStates; int _maxViolationsPerKey; double _timeFrac; double _cpuLimitS = 10.0;
    double _absDeadline = 0; bool _haveDeadline = false;
 };
 
